@@ -11,14 +11,14 @@ using namespace verif;
 namespace {
 Report *gR = nullptr;
 std::string gPrefix;
-std::ostringstream &gSink = *new std::ostringstream();
+NullBuf &gSink = *new NullBuf();
 void flushReport() {
   if (gR && !gPrefix.empty()) gR->write(gPrefix);
 }
 }  // namespace
 
 extern "C" int LLVMFuzzerInitialize(int *, char ***) {
-  std::cout.rdbuf(gSink.rdbuf());
+  std::cout.rdbuf(&gSink);
   gR = new Report();
   if (const char *p = std::getenv("VERIF_OUT")) gPrefix = p;
   std::atexit(flushReport);
@@ -27,7 +27,6 @@ extern "C" int LLVMFuzzerInitialize(int *, char ***) {
 
 extern "C" int LLVMFuzzerTestOneInput(const uint8_t *data, size_t size) {
   Tape t(data, size);
-  gSink.str("");
   gR->failReason.clear();
   gR->beginCase();
   bool ok = prop(t, *gR);
